@@ -9,19 +9,37 @@ import witness  # noqa: E402
 _cache = {}
 
 
+def config_dependent(repo):
+    """Does the non-test source contain code that differs between debug and release builds?"""
+    src = os.path.join(repo, 'src')
+    for root, _, fs in os.walk(src):
+        for fn in fs:
+            if fn.endswith('.rs') and fn != 'tests.rs' and '/tests' not in root:
+                t = open(os.path.join(root, fn)).read()
+                if re.search(r'debug_assert|cfg\s*!?\s*\(\s*(not\s*\(\s*)?debug_assertions|overflow_checks', t):
+                    return True
+    return False
+
+
 def search(prop, names, failure, repo):
     if prop in _cache:
         return _cache[prop]
-    exe, err = witness.build_replay_tool()
-    if not exe:
-        r = {'failing_input': None, 'search_error': 'replay tool did not build against the current tree: ' + err}
-        _cache[prop] = r
-        return r
-    try:
-        p = subprocess.run([exe, 'search', prop], capture_output=True, text=True, timeout=300)
-        out = p.stdout
-    except subprocess.TimeoutExpired:
-        out = ''
+    profiles = ['debug'] + (['release'] if config_dependent(repo) else [])
+    out = ''
+    for profile in profiles:
+        exe, err = witness.build_replay_tool(profile)
+        if not exe:
+            r = {'failing_input': None, 'search_error': 'replay tool (%s) did not build against the current tree: %s' % (profile, err)}
+            _cache[prop] = r
+            return r
+        try:
+            p = subprocess.run([exe, 'search', prop], capture_output=True, text=True, timeout=300)
+            o = p.stdout
+        except subprocess.TimeoutExpired:
+            o = 'SEARCH-TIMEOUT'
+        out += ('' if profile == 'debug' else '\n[release profile: built without debug assertions / overflow checks]\n') + o
+        if re.search(r'^WITNESS property=%s ' % prop, o, flags=re.M) and profile == 'debug':
+            break
     res = {'kind': 'bounded witness search on the real crate (vf_replay search %s)' % prop, 'failing_input': None,
            'output': out[-3000:]}
     # witnesses: `WITNESS property=.. case=.. replay=..` followed by indented expected/actual lines.  A crash-type witness
@@ -34,16 +52,38 @@ def search(prop, names, failure, repo):
         m = re.match(r'WITNESS property=%s case=(\S+) replay=(.*)' % prop, bl)
         if not m:
             continue
+        if 'VF-VIEW' in bl or 'VF-ORACLE' in bl:
+            # the search's own oracle could not read a value (e.g. a hand-written Debug impl): not a witness
+            res.setdefault('oracle_failures', []).append(m.group(1))
+            continue
         ma = re.search(r'(?m)^\s+actual:\s*(.*)$', bl)
         crash = bool(ma and re.match(r'(PANIC|ABORT|HANG)', ma.group(1)))
         encoder_side = bool(re.match(r'(encode-avps|encode-messages|hide|writer-ops|bitmask)\b', m.group(2).strip()))
+        if crash and encoder_side and prop in ('C08', 'C09'):
+            # relative properties: a refusal that also happens when encoding alone is not theirs
+            c06 = search('C06', names, failure, repo)
+            if c06 and c06.get('failing_input'):
+                res.setdefault('discounted_crash_witnesses', []).append(m.group(1))
+                continue
         if crash and prop not in crash_props and not encoder_side:
-            res.setdefault('discounted_crash_witnesses', []).append(m.group(1))
-            continue
+            # cross-talk guard: a decoder crash is C01's.  If the decoder's own crash search finds nothing, the crash
+            # happened in this property's scenario (e.g. while re-encoding a decoded value) and counts here.
+            # A panic while encoding inside the size limits counts for the properties that promise an encoding there;
+            # C09 (position independence) only if encoding alone is fine (C06's search finds nothing).
+            accept = False
+            if prop in ('C03', 'C04', 'C06', 'C07', 'C10', 'C11', 'C12'):
+                c01 = search('C01', names, failure, repo)
+                accept = not (c01 and c01.get('failing_input'))
+            if not accept:
+                res.setdefault('discounted_crash_witnesses', []).append(m.group(1))
+                continue
         args = m.group(2).strip().split()
         res['failing_input'] = {'case': m.group(1), 'replay': m.group(2).strip(), 'detail': bl.strip()[:1500]}
         res['replay_args'] = args
-        rr = witness.run_replay(args)
+        # the witness belongs to the release-profile run if it appears after the release marker
+        prof = 'release' if '[release profile' in out and out.index(bl[:60]) > out.index('[release profile') else 'debug'
+        res['build_profile'] = prof
+        rr = witness.run_replay(args, prof)
         res['real_code_behaviour'] = rr.get('output') or rr.get('error')
         break
     _cache[prop] = res
